@@ -512,6 +512,7 @@ def main(tier):
     from checks import c07_conc
     c07_conc.stage(V, tier, rng)
     c07_conc.enc_stage(V)
+    c07_conc.late_tag_stage(V)
     cov = {'states': stats['states'], 'transitions': stats['transitions'],
            'traces_validated_against_impl': V.counters.get('templates_conform', 0),
            'abstract_templates': len(cases), 'spellings_compiled': nsp, 'renderings': nr, 'exhaustive': False,
